@@ -555,6 +555,9 @@ func TestVerifC16Sys(t *testing.T) {
 			"at a stage of the history start -> tls/configure with the same settings (twice) -> tls/validate -> server_name changed and back -> clean restart; outcome = answered or not, and the ClientID of its query-log record; tls.strict_sni_check is read from AdGuardHome.yaml at every stage; "+
 			"non-trivial = the server name differs from the configured one; distinct by (strict, stage, server name, question)")
 	defer func() {
+		if t.Failed() {
+			rep.Inconcl("the test function was ended by a failed assertion (see the log)")
+		}
 		if err := rep.Write(); err != nil {
 			t.Fatal(err)
 		}
